@@ -1,14 +1,98 @@
 package main
 
+import (
+	"path/filepath"
+	"strings"
+)
+
+// fileScope builds an A7 scope predicate: sites located in functions defined in one of the files.
+func fileScope(c *Ctx, files ...string) func(fn string) bool {
+	return func(fn string) bool {
+		f := c.Fn(fn)
+		if f == nil {
+			// closures: strip the $n suffix
+			if i := strings.Index(fn, "$"); i > 0 {
+				f = c.Fn(fn[:i])
+			}
+		}
+		if f == nil {
+			return false
+		}
+		base := filepath.Base(c.Fset.Position(f.Pos()).Filename)
+		for _, x := range files {
+			if x == base {
+				return true
+			}
+		}
+		return false
+	}
+}
+
+func a7Files(floor int, files ...string) func(*Ctx) {
+	return func(c *Ctx) { ruleA7(fileScope(c, files...), floor)(c) }
+}
+
+var commonAssumptions = []string{
+	"the analysed program is the non-test package in /repo as type-checked by go/types under the listed build configurations; _test.go files are excluded (tests call *Unlocked internals directly)",
+	"dynamic calls are resolved by the VTA call graph (an over-approximation); must-reach style rules use static callees only",
+	"lock analysis is by lock class (mutex field / global), not by instance: holding database A's mutex while touching database B's data is not seen",
+}
+
 func init() {
 	register(&PropSpec{
-		ID:          "C16",
-		Explanation: "A1 lockset",
-		Rules:       []func(*Ctx){ruleA1("A1-guarded", anyClass)},
+		ID: "C06",
+		Explanation: "Structural necessary conditions of keyspace discipline, decided for every site of the current source: (A4-empty) after every site that can shrink a list/hash/set, every path to the end of the critical section tests the aggregate's count against zero and removes the key on the empty side; (A7, files redisCore.go) every option the keyspace handlers look up can be produced by the grammar. The check decides these structural clauses for all paths; it does not decide reply values.",
+		NotDecided:  "glob matching, SORT ordering, DBSIZE/KEYS values, WRONGTYPE replies as values, deep-copy equality of COPY/RENAME (see R-payload-agree when present)",
+		Assumptions: commonAssumptions,
+		Rules:       []func(*Ctx){ruleA4Empty, a7Files(20, "redisCore.go")},
 	})
-	register(&PropSpec{ID: "C19", Explanation: "x", Rules: []func(*Ctx){ruleA4Dirty}})
-	register(&PropSpec{ID: "C13", Explanation: "x", Rules: []func(*Ctx){ruleA7(nil, 150)}})
-	register(&PropSpec{ID: "C07", Explanation: "x", Rules: []func(*Ctx){ruleA6}})
-	register(&PropSpec{ID: "C06", Explanation: "x", Rules: []func(*Ctx){ruleA4Empty}})
-	register(&PropSpec{ID: "C10", Explanation: "x", Rules: []func(*Ctx){ruleA4Version}})
+	register(&PropSpec{
+		ID: "C07",
+		Explanation: "A6 (who-may-read the keyspace raw): every read of a database's keyspace dictionary goes through an expiry filter (tests isExpired, yields (nil,false) on the expired edge), or is an iteration that tests isExpired per element, or is the snapshot writer. This is exactly the universally quantified 'every command treats an expired key as missing' clause.",
+		NotDecided:  "deadline arithmetic, TTL/PTTL/EXPIRETIME values, NX/XX/GT/LT comparisons, behaviour at the deadline instant (time is a runtime quantity)",
+		Assumptions: commonAssumptions,
+		Rules:       []func(*Ctx){ruleA6},
+	})
+	register(&PropSpec{
+		ID: "C08",
+		Explanation: "Under the lock-class assumption, (A1-DB) every access to database state happens with the database mutex held on every path from every root and (lock-balanced) no function returns with the mutex possibly still held; together with (A3, when present) one critical section per command this is the static form of strict two-phase locking with one lock, which implies atomicity of single-database commands.",
+		NotDecided:  "real-time ordering across connections beyond mutual exclusion; cross-database scenarios; wrap-around of the 27-bit command id compared by the re-entrant lock",
+		Assumptions: append([]string{"the owner-token protocol: ds.multiLock equals a command's id only while the EXEC that published it holds ds.mu, and cmdContext.multi is true for a queued command only while that EXEC replays it"}, commonAssumptions...),
+		Rules:       []func(*Ctx){ruleA1("A1-guarded", onlyDB), ruleLockBalanced(nil)},
+	})
+	register(&PropSpec{
+		ID: "C09",
+		Explanation: "Structure of the MULTI/EXEC implementation, decided on all paths: state reset on every exit of EXEC/DISCARD; commands are only queued while a queue exists (append guard, non-nil response after append, handler call dominated by response==nil, control table = {multi,exec,discard,watch}); EXEC replays under the exclusive database hold with the lock id rewritten; error branches of the control commands do not touch queue/watches; a command rejected while queueing leaves a mark EXEC reads; nothing replayable takes the database mutex non-re-entrantly.",
+		NotDecided:  "isolation against other connections beyond the lock argument of C08; reply contents",
+		Assumptions: commonAssumptions,
+		Rules:       []func(*Ctx){ruleC09Reset, ruleC09QueueOnly, ruleC09Exclusive, ruleC09AbortFlag, ruleC09ErrorsInert, ruleA2Reentrant},
+	})
+	register(&PropSpec{
+		ID: "C10",
+		Explanation: "A4-version: 'every kind of modification is visible to the comparison at EXEC' is a claim over all write sites: every mutation site of database state has, on every path through it inside its critical section, an event that gives the key a new version id or removes it from the keyspace.",
+		NotDecided:  "the 'iff' across arbitrary interleavings (follows from C08's lock argument plus this rule); expiry-as-modification timing",
+		Assumptions: append([]string{"a helper that looks the key up and bumps its version is given the key of the object being modified (the not-found edge of that lookup is not followed)"}, commonAssumptions...),
+		Rules:       []func(*Ctx){ruleA4Version},
+	})
+	register(&PropSpec{
+		ID: "C13",
+		Explanation: "No path of these crash classes is reachable from the socket: (A7) every single-result type assertion on a value taken from a command's args agrees with what the grammar-driven parser stores for every token that reaches it, and every panic in the default arm of a key switch has a case for every producible key.",
+		NotDecided:  "bounds safety of indexes computed from untainted server-side lengths, termination of loops, memory growth, reply latency",
+		Assumptions: commonAssumptions,
+		Rules:       []func(*Ctx){ruleA7(nil, 120, true)},
+	})
+	register(&PropSpec{
+		ID: "C16",
+		Explanation: "A1 in full: guarded-by lockset over all lock classes, atomics-only fields, immutable-after-construction fields, connection-confined session state (foreign *clientState taint), run-loop confinement of the connection buffer, append aliasing on the shared grammar slices, and immutability of published payload bytes. A race is a property of pairs of code paths; A1 enumerates every access path to every shared field listed in the guarded-by table.",
+		NotDecided:  "lock-instance confusion; races inside dependencies; fields of realRedisClient (talks to a real server)",
+		Assumptions: append([]string{"the two hand-offs the confinement argument relies on: `go cc.run()` after construction, and the csceCh channel that sequences the reader goroutine and the per-command goroutine of one connection"}, commonAssumptions...),
+		Rules:       []func(*Ctx){ruleA1("A1-guarded", anyClass), ruleA1Modes, ruleAppendAlias, ruleA1PayloadBytes, ruleLockBalanced(nil)},
+	})
+	register(&PropSpec{
+		ID: "C19",
+		Explanation: "A4-dirty: every mutation site of database state is accompanied, on every path through it inside its critical section, by an event that marks the database's keyspace dirty — otherwise the periodic/final save skips the change and a restart loses it.",
+		NotDecided:  "gob round-trip equality; on-disk states at crash points (needs execution or a file-system model)",
+		Assumptions: commonAssumptions,
+		Rules:       []func(*Ctx){ruleA4Dirty},
+	})
 }
